@@ -111,6 +111,73 @@ func loopDesc(c *Ctx, l *loopInfo) string {
 
 // countedLoop: the loop is controlled by an integer induction variable that moves by a constant
 // towards a loop-invariant bound tested in the header.
+// descentLoop: a loop-carried pointer or interface variable is replaced, on every back edge, by a
+// proper part of itself reached through tree selectors (x = x.Base): the loop ends at the latest at
+// the leaves of the finite structure. Reference selectors (which may close cycles) do not count.
+func descentLoop(l *loopInfo) (string, bool) {
+	for _, in := range l.head.Instrs {
+		p, ok := in.(*ssa.Phi)
+		if !ok {
+			break
+		}
+		switch p.Type().Underlying().(type) {
+		case *types.Pointer, *types.Interface:
+		default:
+			continue
+		}
+		good, nBack := true, 0
+		var sels []string
+		for i, e := range p.Edges {
+			if !l.body[l.head.Preds[i]] {
+				continue
+			}
+			nBack++
+			v := e
+			steps := 0
+			for d := 0; d < 12 && v != ssa.Value(p); d++ {
+				switch t := v.(type) {
+				case *ssa.MakeInterface:
+					v = t.X
+				case *ssa.ChangeInterface:
+					v = t.X
+				case *ssa.ChangeType:
+					v = t.X
+				case *ssa.TypeAssert:
+					v = t.X
+				case *ssa.Extract:
+					if ta, ok := t.Tuple.(*ssa.TypeAssert); ok && t.Index == 0 {
+						v = ta.X
+					} else {
+						d = 99
+					}
+				case *ssa.UnOp:
+					if fa, ok := t.X.(*ssa.FieldAddr); ok && t.Op == token.MUL {
+						sel := selOfField(fa.X.Type(), fa.Field)
+						if _, isRef := referenceSelectors[sel]; isRef {
+							d = 99
+						} else {
+							steps++
+							sels = append(sels, sel)
+							v = fa.X
+						}
+					} else {
+						d = 99
+					}
+				default:
+					d = 99
+				}
+			}
+			if v != ssa.Value(p) || steps == 0 {
+				good = false
+			}
+		}
+		if good && nBack > 0 {
+			return fmt.Sprintf("%s is replaced by its own %s on every back edge", p.Comment, strings.Join(sels, ", ")), true
+		}
+	}
+	return "", false
+}
+
 func countedLoop(l *loopInfo) (string, bool) {
 	if len(l.head.Instrs) == 0 {
 		return "", false
@@ -235,7 +302,19 @@ func c03Rec(c *Ctx, r *Report) {
 		cyc := sc.residualCycle()
 		pos := sc.fns[0].Pos()
 		if cyc == nil {
-			r.add("C03.REC", key, pos, Discharged, "every cycle contains a measure-decreasing call", desc...)
+			bad, ng, capped := sctVerdict(c, eng, sc)
+			for _, e := range sc.edges {
+				desc = append(desc, "size-change "+sizeChangeOf(c, eng, e).wit[0]+": "+sizeChangeOf(c, eng, e).describe())
+			}
+			switch {
+			case capped:
+				r.add("C03.REC", key, pos, Undecided, fmt.Sprintf("the closure of the size-change graphs was abandoned after %d graphs", ng), desc...)
+			case bad != nil:
+				w := append([]string{"call sequence: " + strings.Join(bad.wit, " ; "), "size change along it: " + bad.describe()}, desc...)
+				r.add("C03.REC", key, pos, Violated, "size-change analysis: a repeatable call sequence on which no single parameter keeps decreasing ("+bad.describe()+"): a value taken from another parameter (a table looked up by name, a referenced definition) restarts the measure, so on cyclic data the recursion does not terminate and overflows the stack, which cannot be recovered", w...)
+			default:
+				r.add("C03.REC", key, pos, Discharged, fmt.Sprintf("every cycle contains a measure-decreasing call, and every idempotent composition of the %d size-change graphs has a strictly decreasing parameter", ng), desc...)
+			}
 		} else {
 			var w []string
 			for _, e := range cyc {
@@ -296,6 +375,8 @@ func c03Bound(c *Ctx, r *Report) {
 			default:
 				if why, ok := countedLoop(l); ok {
 					r.add("C03.BOUND", key, pos, Discharged, "counted loop: "+why)
+				} else if why, ok := descentLoop(l); ok {
+					r.add("C03.BOUND", key, pos, Discharged, "descent loop: "+why)
 				} else if why, ok := reviewedLoops[fnName(fn)]; ok {
 					r.add("C03.BOUND", key, pos, Discharged, "reviewed: "+why)
 				} else if why, ok := reviewedLoops[fnName(parentOf(fn))]; ok {
